@@ -2,27 +2,130 @@
 open Common
 let put_res f = function Ok v -> f v | Exit -> put_w "EXIT" | OOB -> put_w "OOB" | Fuel -> put_w "FUEL"
 let put_mat m = put_i (List.length m); put_i (match m with [] -> 0 | r :: _ -> List.length r); List.iter (List.iter put_f) m
-let vec3 r = let a = num r in let b = num r in let c = num r in [a; b; c]
+let ( let* ) x f = match x with Ok v -> f v | Exit -> Exit | OOB -> OOB | Fuel -> Fuel
+let hist = ref false
+let three = z_of_int 3
+
+(* one step of the history of a Vector object (grammar: checks/C16.py, harness/C16.cpp) *)
+let rd_vstep r : float vstep =
+  match word r with
+  | "st" -> let i = integer r in let x = num r in VSet (nat_of_int i, x)
+  | "pa" -> VAddAssign (list r)
+  | "ma" -> VSubAssign (list r)
+  | "sa" -> VAddSelf
+  | "ss" -> VSubSelf
+  | "pl" -> VPlus (list r)
+  | "mi" -> VMinus (list r)
+  | "ms" | "sm" -> VTimes (num r)
+  | "dv" -> VDivide (num r)
+  | "rs" -> VResize (nat_of_int (integer r))
+  | "as" -> let n = integer r in let x = num r in VAssign (nat_of_int n, x)
+  | "nz" -> VNormalize
+  | "nd" -> VNormalizedAssign
+  | "cx" -> VCrossAssign (list r)
+  | "df" -> VDefault
+  | "cp" | "eq" | "se" -> VCopy
+  | "qn" | "qN" | "qz" | "qp" -> VQNorm
+  | "qd" | "qo" | "qO" | "qe" -> VQDot (list r)
+  | "qr" | "qw" -> VQRead (nat_of_int (integer r))
+  | "qc" -> VQCross (list r)
+  | "qa" | "qb" -> VQAngle (list r)
+  | "cs" -> let rr = num r in let th = num r in let ph = num r in VCallSpherical (rr, th, ph)
+  | "cr" -> let al = num r in let dim = integer r in VCallRotation (al, z_of_int dim)
+  | s -> failwith ("unknown vector step " ^ s)
+let vec_history r v =
+  if not !hist then Ok v
+  else begin
+    let k = integer r in
+    let steps = List.init k (fun _ -> rd_vstep r) in
+    vhistory fops Float.hypot v steps
+  end
+let rd_vec r = let v = list r in vec_history r v
+let rd_vec3 r = let a = num r in let b = num r in let c = num r in vec_history r [a; b; c]
+
+let rd_mstep r : float mstep =
+  match word r with
+  | "pa" -> MAddAssign (table r)
+  | "ma" -> MSubAssign (table r)
+  | "pl" -> MPlus (table r)
+  | "mi" -> MMinus (table r)
+  | "tr" -> MTransposeAssign
+  | "ms" | "sm" -> MTimes (num r)
+  | "dv" -> MDivide (num r)
+  | "rs" -> let p = integer r in let q = integer r in MResize (nat_of_int p, nat_of_int q)
+  | "cp" | "eq" | "se" | "qd" | "qi" | "qo" | "qt" | "qn" | "qs" | "qT" | "qe" | "qp" | "qm" | "qb" -> MKeep
+  | "sw" -> ignore (integer r); ignore (integer r); MKeep
+  | "qr" | "qc" -> ignore (integer r); MKeep
+  | "qv" -> ignore (list r); MKeep
+  | s -> failwith ("unknown matrix step " ^ s)
+let mat_history r m =
+  if not !hist then Ok m
+  else begin
+    let k = integer r in
+    let steps = List.init k (fun _ -> rd_mstep r) in
+    mhistory fops m steps
+  end
+
+let out_res = function Ok () -> () | Exit -> Buffer.clear buf; first := true; put_w "EXIT"
+  | OOB -> Buffer.clear buf; first := true; put_w "OOB" | Fuel -> Buffer.clear buf; first := true; put_w "FUEL"
 
 let handler r =
-  match word r with
-  | "rot" -> let alpha = num r in let dim = integer r in let axis = list r in
-      put_res put_mat (rotation_matrix fops alpha (z_of_int dim) axis)
-  | "rotcomp" -> let a = num r in let b = num r in let axis = vec3 r in
-      (match rotation_matrix fops a (z_of_int 3) axis, rotation_matrix fops b (z_of_int 3) axis,
-             rotation_matrix fops (a +. b) (z_of_int 3) axis with
-       | Ok ra, Ok rb, Ok rab -> put_mat (mmul fops ra rb); put_mat rab
-       | _ -> put_w "EXIT")
-  | "rotapply" -> let alpha = num r in let axis = vec3 r in let v = vec3 r in
-      put_res (fun m -> put_fl (mvec fops m v)) (rotation_matrix fops alpha (z_of_int 3) axis)
+  hist := false;
+  let op = match word r with "hist" -> hist := true; word r | o -> o in
+  match op with
+  | "rot" -> let alpha = num r in let dim = integer r in
+      out_res (let* axis = rd_vec r in
+               let* m = rotation_matrix fops alpha (z_of_int dim) axis in Ok (put_mat m))
+  | "rotdef" -> let alpha = num r in let dim = integer r in
+      put_res put_mat (rotation_matrix fops alpha (z_of_int dim) [0.0; 0.0; 1.0])
+  | "rotcomp" -> let a = num r in let b = num r in
+      out_res (let* axis = rd_vec3 r in
+               let* ra = rotation_matrix fops a three axis in
+               let* rb = rotation_matrix fops b three axis in
+               let* rab = rotation_matrix fops (a +. b) three axis in
+               let* ra = mat_history r ra in
+               let* rb = mat_history r rb in
+               Ok (put_mat (mmul fops ra rb); put_mat rab))
+  | "rotapply" -> let alpha = num r in
+      out_res (let* axis = rd_vec3 r in let* v = rd_vec3 r in
+               let* m = rotation_matrix fops alpha three axis in
+               let* m = mat_history r m in Ok (put_fl (mvec fops m v)))
+  | "rotback" -> let alpha = num r in
+      out_res (let* axis = rd_vec3 r in let* v = rd_vec3 r in
+               let* m = rotation_matrix fops alpha three axis in
+               let* m = mat_history r m in
+               let w = mvec fops m v in
+               let* back = vecm fops w m in Ok (put_fl w; put_fl back))
   | "sph" -> let rr = num r in let th = num r in let ph = num r in put_fl (spherical fops rr th ph)
-  | "spha" -> let rr = num r in let th = num r in let ph = num r in let axis = list r in
-      put_res put_fl (spherical_axis fops Float.hypot rr th ph axis)
-  | "sphad" -> let rr = num r in let th = num r in let ph = num r in let h = num r in let axis = vec3 r in
-      (match spherical_axis fops Float.hypot rr th ph axis, spherical_axis fops Float.hypot rr th (ph +. h) axis with
-       | Ok v, Ok w -> put_fl v; put_fl w
-       | _ -> put_w "EXIT")
-  | "cross" -> let a = list r in let b = list r in put_res put_fl (cross fops a b)
+  | "spha" -> let rr = num r in let th = num r in let ph = num r in
+      out_res (let* axis = rd_vec r in
+               let* u = spherical_axis fops Float.hypot rr th ph axis in Ok (put_fl u))
+  | "sphad" -> let rr = num r in let th = num r in let ph = num r in let h = num r in
+      out_res (let* axis = rd_vec3 r in
+               let* v = spherical_axis fops Float.hypot rr th ph axis in
+               let* w = spherical_axis fops Float.hypot rr th (ph +. h) axis in Ok (put_fl v; put_fl w))
+  | "sphang" -> let rr = num r in let th = num r in let ph = num r in
+      out_res (let* axis = rd_vec r in
+               let* u = spherical_axis fops Float.hypot rr th ph axis in
+               let* a1 = angle fops u axis in
+               let* a2 = angle fops axis u in
+               Ok (put_fl u; put_f (vnorm fops u); put_f a1; put_f a2))
+  | "sphrot" -> let rr = num r in let th = num r in let ph = num r in let alpha = num r in
+      out_res (let* axis = rd_vec3 r in
+               let* u = spherical_axis fops Float.hypot rr th ph axis in
+               let* u = vec_history r u in
+               let* m = rotation_matrix fops alpha three u in Ok (put_fl u; put_mat m))
+  | "rotsph" -> let alpha = num r in let rr = num r in let th = num r in let ph = num r in
+      out_res (let* axis = rd_vec3 r in
+               let* m = rotation_matrix fops alpha three axis in
+               let* u = spherical_axis fops Float.hypot rr th ph axis in
+               let* m = mat_history r m in
+               let* w = spherical_axis fops Float.hypot rr th (ph +. alpha) axis in
+               Ok (put_fl (mvec fops m u); put_fl w))
+  | "angle" ->
+      out_res (let* a = rd_vec r in let* b = rd_vec r in let* x = angle fops a b in Ok (put_f x))
+  | "cross" ->
+      out_res (let* a = rd_vec r in let* b = rd_vec r in let* c = cross fops a b in Ok (put_fl c))
   | o -> put_w ("MODELERR unknown_op_" ^ o)
 
 let () = run handler
